@@ -2030,6 +2030,22 @@ return 1;""",
             # Useful for debugging.  Requested and found path.
             fmt_result.stmt0 = statements.compute_name(stmts)
             fmt_result.stmt1 = result_blk.name
+            if sgroup == "native" and ast.attrs["owner"] == "caller" \
+               and stmts[-1] == "list" and ast.is_pointer():
+                # The values have been copied into the list,
+                # release the memory owned by the caller.
+                free_pattern = ast.attrs["free_pattern"]
+                if free_pattern is not None:
+                    fmt_result.capsule_order = self.add_capsule_code(
+                        free_pattern, [self.patterns[free_pattern]])
+                else:
+                    fmt_result.capsule_order = self.add_capsule_code(
+                        self.language + " free", ["free(ptr);"])
+                result_blk = util.Scope(
+                    result_blk,
+                    post_call=result_blk.post_call + [
+                        "{PY_release_memory_function}({capsule_order},"
+                        "\t {cxx_nonconst_ptr});"])
                 
         return fmt_result, result_blk
 
